@@ -36,7 +36,7 @@ EDITS = [
     ("update", {"new1": 1, "new2": 2}, False), ("update", {"new1": 1, "a": 1}, False), ("update", {"new1": 1, "a": 5}, True),
     ("move",), ("clone",),
 ]
-DESTS = ["absent", "initialised", "handle_only", "empty_dir", "file"]
+DESTS = ["absent", "initialised", "handle_only", "empty_dir", "file", "no_workspace"]
 PAYLOADS = ["nothing", "doc", "files+doc"]
 PROVENANCE = ["sp", "id", "copy-edit-original", "copy-edit-copy", "deepcopy", "pickle"]
 
@@ -164,6 +164,9 @@ def evaluate(item):
                 dest_proj.open_job(new)
             elif dest == "empty_dir":
                 os.makedirs(os.path.join(dest_proj_path, "workspace", new_id))
+            elif dest == "no_workspace":
+                if not cross:
+                    return {"skip": "only move / clone have another project as destination", "viol": [], "n": 0}
             elif dest == "file":
                 # the destination id is occupied by something that is not a directory: the operation cannot succeed
                 os.makedirs(os.path.join(dest_proj_path, "workspace"), exist_ok=True)
@@ -202,10 +205,15 @@ def evaluate(item):
         exc = None
         result = None
         try:
+            qobj = signac.Project(qp)
+            if dest == "no_workspace":
+                # the destination's still empty workspace directory disappears while its Project object is alive:
+                # signac creates workspaces on demand, the operation works as onto any other empty project
+                os.rmdir(os.path.join(qp, "workspace"))
             if op == "move":
-                actor.move(signac.Project(qp))
+                actor.move(qobj)
             elif op == "clone":
-                result = signac.Project(qp).clone(actor)
+                result = qobj.clone(actor)
             else:
                 do_edit(actor, edit)
         except BaseException as e:  # noqa
